@@ -103,7 +103,7 @@ CHECKS = {
         "rule": "programs = 2-3 threads x 1-2 operations drawn from the full API catalogue (insert/overwrite/delete/batch_delete/batch_delete_by_metadata_filter/update_metadata/"
                 "bulk_load/query/bulk_query/get_document_with_metadata/get_embedding_cache_aware/get_metadata/exists/knn_search/knn_search_batch/flush_hot_tier/stats/cache_size/"
                 "hsc_lifecycle_stats/create_snapshot/ids_for_metadata_filter/update_predictor/access-logger writes/strategy stats) after a 0-6 operation warm-up, x cache strategy "
-                "{LRU, learned, learned+semantic, A/B} x persistence on/off (file-system calls are scheduling points too) x snapshot interval {0,1,2,1000}; 8 seeded schedules per program. "
+                "{LRU, learned, learned+semantic, A/B} x persistence on/off (file-system calls are scheduling points too) x snapshot interval {0,1,2,1000}; 8 seeded schedules per program. A third of the programs (2-4 threads) issue insert / delete / batch_delete / update_metadata / create_snapshot / reads / filter reads directly against the cold tier (HnswBackend is public API; no tiered write gate in between, persistence on, index capacity 6 or 1000 so that tombstone compaction runs concurrently too). "
                 "evaluations = schedules executed to completion or to an all-blocked state. distinct_nontrivial = distinct hashes of the (thread, lock ordinal, operation) decision trace "
                 "with more than 2 decisions. Every 16th run records acquisition sites; site-level 2-cycles of the accumulated lock-order graph are reported as probes only.",
         "assumptions": [
